@@ -16,9 +16,9 @@ initial time. -/
 theorem init_inv (c : Cfg) (t0 : Int) (pids : List Pid) (layers : List (List Sid)) (store : Store) :
     Inv (init c t0 pids layers store) := by
   intro pf hpf
-  simp [init] at hpf
+  simp [init, init0] at hpf
   obtain ⟨p, _, rfl⟩ := hpf
-  simp [FrontOK, newFront, init]
+  simp [FrontOK, newFront, init, init0]
 
 /-- **One scheduler iteration**: strictly advances the clock, never past the end of the requested
 interval, and re-establishes the invariant — whatever the processes answer. -/
